@@ -1167,7 +1167,7 @@ pub fn run_program(prog: &Arc<Program>) -> Vec<Ev>
 fn run_inner(prog: &Arc<Program>)
 {
     let mut app = App::new();
-    app.add_plugins(ReactPlugin);
+    if !prog.plugin_last { app.add_plugins(ReactPlugin); }
     let ninst = prog.insts.len();
     app.world_mut().insert_resource(TickProbe);
     app.world_mut().insert_react_resource(RR(0));
@@ -1213,6 +1213,7 @@ fn run_inner(prog: &Arc<Program>)
             _ => {}
         }
     }
+    if prog.plugin_last { app.add_plugins(ReactPlugin); }
     // frame systems, in the program's total order
     if !prog.frame_systems.is_empty()
     {
@@ -1268,7 +1269,17 @@ fn run_inner(prog: &Arc<Program>)
     for (i, def) in prog.insts.iter().enumerate()
     {
         if def.origin != Origin::Pre { continue; }
-        let sc = { let mut c = world.commands(); let sc = spawn_actor_cmd(&mut c, i as u8, def.flavour); sc };
+        // the three equivalent entry points take turns: `Commands::spawn_system_command`, `World::spawn_system_command`,
+        // and `spawn_system_command_from(SystemCommandCallback::new(..))`
+        let sc = match (i % 3, def.flavour)
+        {
+            (1, Flavour::Plain) => world.spawn_system_command(plain_actor::<()>(i as u8)),
+            (1, Flavour::Exclusive) => world.spawn_system_command(excl_actor::<()>(i as u8)),
+            (2, Flavour::Plain) => world.spawn_system_command_from(SystemCommandCallback::new(plain_actor::<()>(i as u8))),
+            (2, Flavour::FallibleDrop) => { let mut c = world.commands(); c.spawn_system_command_from(SystemCommandCallback::new(plain_actor::<DropErr>(i as u8))) }
+            (2, Flavour::Exclusive) => spawn_system_command_from(world, SystemCommandCallback::new(excl_actor::<()>(i as u8))),
+            _ => { let mut c = world.commands(); spawn_actor_cmd(&mut c, i as u8, def.flavour) }
+        };
         world.flush();
         h.insts[i] = Some(sc);
         h.known.push(*sc);
